@@ -102,7 +102,7 @@ func GenAdmission(prop string, seed uint64, thorough bool) *Scenario {
 	}
 	paths := []string{mount, mount, mount, strings.TrimSuffix(mount, "/"), mount + "sub/x", mount + "/", "/", "/other", strings.ToUpper(mount), "/x/../" + strings.TrimPrefix(mount, "/"), "/" + mount, mount + "../" + strings.Trim(mount, "/") + "/", "/engine.io/", "/engine.io"}
 	for i := 0; i < n; i++ {
-		op := RawOp{Op: "http", AtMs: g.pick(0, 0, 10, 100), Method: g.picks("GET", "GET", "GET", "POST", "POST", "PUT", "OPTIONS", "DELETE", "HEAD"), Path: paths[g.IntN(len(paths))]}
+		op := RawOp{Op: "http", AtMs: g.pick(0, 0, 10, 100), Method: g.picks("GET", "GET", "GET", "POST", "POST", "PUT", "OPTIONS", "DELETE", "HEAD", "CONNECT"), Path: paths[g.IntN(len(paths))]}
 		var q []string
 		tr := g.picks("polling", "polling", "websocket", "webtransport", "flashsocket", "", "POLLING")
 		if tr != "" || g.p(0.5) {
